@@ -455,6 +455,11 @@ func genC02(r *rng, tier string, emit func(string)) {
 				m[pos] ^= byte(1 + r.intn(255))
 				dec(k.d, m)
 			}
+			for _, pc := range []byte{0x00, 0x02, 0x03, 0x05, 0x06, 0xff} { // the point-format octet (PC = 04 for an uncompressed C1)
+				m := append([]byte{}, ct...)
+				m[0] = pc
+				dec(k.d, m)
+			}
 			for _, tl := range []int{0, 1, 10, 64, 65, 96, 97, len(ct) - 1} { // truncations
 				if tl < len(ct) {
 					dec(k.d, ct[:tl])
